@@ -7,7 +7,7 @@ os.makedirs(dst,exist_ok=True)
 shutil.copy(f'{wt}/MUTANT/patch.diff',dst+'/patch.diff')
 for f in glob.glob(f'{wt}/MUTANT/*'):
     b=os.path.basename(f)
-    if b in ('patch.diff','meta.json'): continue
+    if b in ('patch.diff','meta.json') or os.path.isdir(f): continue
     shutil.copy(f,dst+'/'+b)
 am=json.load(open(f'{wt}/MUTANT/meta.json'))
 meta={
